@@ -16,11 +16,17 @@ def defOk (p : Fun.CheckedProgram) (d : Fun.Def) : Bool :=
   (fv d.body).all (fun x => (d.ctx.map (·.var)).contains x) &&
   !(d.ctx.map (·.var)).contains sig && !(binderNames d.body).contains sig
 
+/-- the type is `i64` -/
+def isI64T : Fun.Ty → Bool
+  | .i64 => true
+  | _ => false
+
 /-- conditions on the source program: every definition is in the fragment (`good`), closed, with pairwise distinct parameters, no name `ς`; definition names are
-pairwise distinct; the parameters of `main` are producers -/
+pairwise distinct; the parameters of `main` are producers of type `i64`, its result is an `i64` -/
 def progOk (p : Fun.CheckedProgram) : Bool :=
   p.defs.all (defOk p) && decide (p.defs.map (·.name)).Nodup &&
-  p.defs.all (fun d => d.name != "main" || d.ctx.all (fun b => b.chi == .prd))
+  p.defs.all (fun d => d.name != "main" || d.ctx.all (fun b => b.chi == .prd)) &&
+  p.defs.all (fun d => d.name != "main" || (d.ctx.all (fun b => isI64T b.ty) && isI64T d.retTy))
 
 /-- condition on the translation: the body of every definition mentions only its parameters -/
 def coreClosed (q : Core.Prog) : Bool :=
@@ -101,7 +107,7 @@ theorem compileDef_facts {p : Fun.CheckedProgram} {q : Core.Prog} (hcod : CodOK 
     ∃ D a τ τ', D ∈ q.defs ∧ D.name = ⟨d.name, 0⟩ ∧
       D.ctx = compileContext d.ctx ++ [⟨⟨a, 0⟩, .cns, τ⟩] ∧
       Compiled q 0 d.body (.var .cns ⟨a, 0⟩ τ') D.body ∧
-      Core.isCodata q.codataTypes τ' = false ∧ a ∉ d.ctx.map (·.var) := by
+      (∃ τb, getType d.body = some τb ∧ τ' = compileTy τb) ∧ a ∉ d.ctx.map (·.var) := by
   unfold compileDef at h
   simp only at h
   cases hty : getType d.body with
@@ -129,10 +135,7 @@ theorem compileDef_facts {p : Fun.CheckedProgram} {q : Core.Prog} (hcod : CodOK 
           simp only [occTerm, List.mem_singleton] at hb
           subst hb
           exact .inr ⟨freshCovar_ne_sig st0, by rw [freshCovar_used]; exact List.mem_cons_self⟩
-      · have h1 := good_ncd p d.body (defOk_facts hd).1
-        rw [← getType_eq, hty] at h1
-        rw [hcod t]
-        simpa [ncdO] using h1
+      · exact ⟨t, rfl, rfl⟩
       · intro hmem'
         have hp : ∀ x ∈ d.ctx.map (·.var), x ∈ st0.usedVars := by
           rw [← hst0]; exact params_used cts ul
@@ -145,7 +148,7 @@ theorem compileMain_facts {p : Fun.CheckedProgram} {q : Core.Prog} (hcod : CodOK
     (hcts : cts = q.codataTypes) (hmem : ∀ D ∈ r.1, D ∈ q.defs) :
     ∃ D x0 τ, D ∈ q.defs ∧ D.name = ⟨d.name, 0⟩ ∧ D.ctx = compileContext d.ctx ∧
       Compiled q 0 d.body (.mu .cns ⟨x0, 0⟩ τ (.exit (.var .prd ⟨x0, 0⟩ τ) τ)) D.body ∧
-      Core.isCodata q.codataTypes τ = false := by
+      (∃ τb, getType d.body = some τb ∧ τ = compileTy τb) := by
   unfold compileMain at h
   simp only at h
   cases hty : getType d.body with
@@ -166,10 +169,7 @@ theorem compileMain_facts {p : Fun.CheckedProgram} {q : Core.Prog} (hcod : CodOK
       refine ⟨⟨⟨d.name, 0⟩, compileContext d.ctx, body⟩, (freshVar st0).1, compileTy t, hmem _ (by simp),
         rfl, rfl, ?_, ?_⟩
       rotate_left
-      · have h1 := good_ncd p d.body (defOk_facts hd).1
-        rw [← getType_eq, hty] at h1
-        rw [hcod t]
-        simpa [ncdO] using h1
+      · exact ⟨t, rfl, rfl⟩
       refine ⟨(freshVar st0).2, st', hx, ⟨fun D hD => hmem D (by simp [hD]), ?_⟩,
         htn0.of_sub (fun _ h => h) (fun _ h => h) hfs, ?_⟩
       · rw [hfr.codata]
@@ -272,7 +272,7 @@ theorem progOk_facts {p : Fun.CheckedProgram} (h : progOk p = true) :
     (∀ d ∈ p.defs, d.name = "main" → ∀ b ∈ d.ctx, b.chi = .prd) := by
   simp only [progOk, Bool.and_eq_true, List.all_eq_true, decide_eq_true_eq,
     Bool.or_eq_true, bne_iff_ne, ne_eq] at h
-  obtain ⟨⟨h2, h3⟩, h4⟩ := h
+  obtain ⟨⟨⟨h2, h3⟩, h4⟩, _⟩ := h
   refine ⟨h2, h3, fun d hd hm b hb => ?_⟩
   rcases h4 d hd with h' | h'
   · exact absurd hm h'
@@ -280,6 +280,20 @@ theorem progOk_facts {p : Fun.CheckedProgram} (h : progOk p = true) :
     cases hb' : b.chi with
     | prd => rfl
     | cns => rw [hb'] at this; exact absurd this (by decide)
+
+theorem isI64T_iff {τ : Fun.Ty} : isI64T τ = true ↔ τ = .i64 := by
+  cases τ <;> simp [isI64T]
+
+/-- the signature of `main`: integer parameters, integer result -/
+theorem progOk_mainTys {p : Fun.CheckedProgram} (h : progOk p = true) :
+    ∀ d ∈ p.defs, d.name = "main" → (∀ b ∈ d.ctx, b.ty = .i64) ∧ d.retTy = .i64 := by
+  simp only [progOk, Bool.and_eq_true, List.all_eq_true, decide_eq_true_eq,
+    Bool.or_eq_true, bne_iff_ne, ne_eq] at h
+  obtain ⟨_, h5⟩ := h
+  intro d hd hm
+  rcases h5 d hd with h' | h'
+  · exact absurd hm h'
+  · exact ⟨fun b hb => isI64T_iff.1 (h'.1 b hb), isI64T_iff.1 h'.2⟩
 
 theorem findDef_mem {p : Fun.CheckedProgram} {f : String} {d : Fun.Def}
     (h : Fun.findDef p f = some d) : d ∈ p.defs ∧ d.name = f := by
@@ -357,12 +371,12 @@ theorem codOK_of_compileProg {p : Fun.CheckedProgram} {q : Core.Prog} (hc : comp
     simp [ident_beq0]
 
 theorem ctx_of_compileProg {p : Fun.CheckedProgram} {q : Core.Prog} (hc : compileProg p = .ok q)
-    (hp : progOk p = true) (hq : coreClosed q = true) : Ctx p q := by
+    (hp : progOk p = true) (hq : coreClosed q = true) (hpm : Typed.ProgM p) : Ctx p q := by
   obtain ⟨hdefsok, hnd, _⟩ := progOk_facts hp
   obtain ⟨hqc, hdefs⟩ := compileProg_defs hc
   have hcod := codOK_of_compileProg hc
   have hmem := compileDefs_mem q.codataTypes p.defs _ [] q.defs hdefs
-  refine ⟨hcod, ?_, ?_, ?_⟩
+  refine ⟨hcod, hpm, ?_, ?_, ?_⟩
   · refine compileDefs_nodup _ _ _ _ _ hdefs ?_ (by simp) (fun d hd' => mem_usedLabels_init _ d hd')
     simp only [List.map_nil, List.nil_append]
     have : p.defs.map (fun d => ident0 d.name) = (p.defs.map (·.name)).map ident0 := by simp
